@@ -34,8 +34,14 @@ func stress(o *c.Out, seed uint64, workers, rounds int) {
 			for i := 0; i < rounds; i++ {
 				id := w*1_000_000 + i
 				leaf := 1 + rng.Intn(2)
-				x.op(Op{id, "getq", leaf})
-				if x.op(Op{id, "allowed", leaf}) == 1 {
+				// the stream's sequence id: the transaction's own id, or a stamp
+				// that transactions of several workers carry at the same time
+				seq := id
+				if rng.Chance(1, 3) {
+					seq = 7_000_000 + rng.Intn(4)
+				}
+				x.op(Op{id, "getq", leaf, seq})
+				if x.op(Op{id, "allowed", leaf, seq}) == 1 {
 					atomic.AddInt64(&admitted, 1)
 					for _, q := range cfg.chain(leaf) {
 						n := atomic.AddInt64(&inflight[q], 1)
@@ -52,10 +58,10 @@ func stress(o *c.Out, seed uint64, workers, rounds int) {
 					}
 				}
 				if rng.Chance(1, 2) {
-					x.op(Op{id, "dec", leaf})
-					x.op(Op{id, "finish", 0})
+					x.op(Op{id, "dec", leaf, seq})
+					x.op(Op{id, "finish", 0, seq})
 				} else {
-					x.op(Op{id, "drop", 0})
+					x.op(Op{id, "drop", 0, id}) // proxy error: ID = SequenceID = transaction id
 				}
 			}
 		}(w)
